@@ -2,6 +2,7 @@ package args
 
 import (
 	"fmt"
+	"sort"
 
 	"github.com/onflow/atree"
 
@@ -111,6 +112,28 @@ func (h *host) reset() {
 		},
 		OnDecodeArgument: func(b []byte, _ cadence.Type) (cadence.Value, error) { return jsoncdc.Decode(nil, b) },
 		OnValidatePublicKey: func(*stdlib.PublicKey) error { return nil },
+		// the same fixed answers as rt.Run gives
+		OnGetAccountBalance:          func(runtime.Address) (uint64, error) { return 100_00000000, nil },
+		OnGetAccountAvailableBalance: func(runtime.Address) (uint64, error) { return 90_00000000, nil },
+		OnGetStorageUsed:             func(runtime.Address) (uint64, error) { return 1000, nil },
+		OnGetStorageCapacity:         func(runtime.Address) (uint64, error) { return 100000, nil },
+		OnAccountKeysCount:           func(runtime.Address) (uint32, error) { return 0, nil },
+		OnGetAccountKey:              func(runtime.Address, uint32) (*stdlib.AccountKey, error) { return nil, nil },
+		OnGetAccountContractNames: func(a runtime.Address) ([]string, error) {
+			if a == rt.Addr(1) {
+				var names []string
+				for k := range h.l.Code {
+					if loc, _, err := common.DecodeTypeID(nil, k); err == nil {
+						if al, ok := loc.(common.AddressLocation); ok && al.Address == a {
+							names = append(names, al.Name)
+						}
+					}
+				}
+				sort.Strings(names)
+				return names, nil
+			}
+			return nil, nil
+		},
 		OnGetOrLoadProgram: func(loc runtime.Location, load func() (*runtime.Program, error)) (*runtime.Program, error) {
 			if p, ok := h.progs[loc]; ok {
 				return p, nil
